@@ -52,6 +52,21 @@ func New(
 	for _, o := range outExprs {
 		subMergers = append(subMergers, o.SubMergers(inExprs))
 	}
+	// Inputs with the same expression hold the same data, merge only the first
+	// of them (otherwise e.g. SELECT b, SUM(b) AS total would count b twice).
+	seen := make(map[string]bool, len(inExprs))
+	for i, in := range inExprs {
+		if in == nil {
+			continue
+		}
+		s := in.String()
+		if seen[s] {
+			for _, sms := range subMergers {
+				sms[i] = nil
+			}
+		}
+		seen[s] = true
+	}
 	return &Tree{
 		outExprs:      outExprs,
 		inExprs:       inExprs,
